@@ -206,7 +206,7 @@ class Gen:
         return unknown(rng, rng.choice([10, 11, 12, 13, 18, 19, 21, 99, 255]), rbytes(rng, rng.choice([0, 0, 4, 9])))
 
 
-def build_cases(ctx):
+def build_cases(ctx, scheds=()):
     g = Gen(ctx.seed * 7919 + (0 if ctx.quick() else 1), ctx.tier)
     rng = g.rng
     wcases, rcases, genmsgs = [], [], []
@@ -273,6 +273,41 @@ def build_cases(ctx):
         for _ in range(rng.randrange(3)):
             msgs.insert(rng.randrange(len(msgs) + 1), g.noise())
         add_stream(msgs, rng.random() < 0.3, ["one", "prefix", "rand"])
+    # ---- TIME: a slow peer.  Blocks arrive in bursts separated by silences that outlast the reader's piece timeout (several per
+    # block, each after fresh bytes: the reader keeps the connection AND the position - Wire!Timeout), followed by messages that
+    # must still parse exactly; "slowx" adds one silence anywhere (the reader may give up there: exact prefix expected)
+    for j in range(ctx.pick(36, 600)):
+        pre = [g.random_msg(True) for _ in range(rng.randrange(3))]
+        blocks = []
+        for _ in range(rng.choice([1, 1, 2, 3])):
+            n = rng.choice([3, 4, 5, 17, 18, 100, 1000, 16383, 16384, rng.randrange(3, 16385), rng.randrange(3, 64)])
+            blocks.append(piece(rng, rng.randrange(4), rng.choice([0, 16384, 32768]), plen=n))
+            blocks += [g.random_msg(True) for _ in range(rng.randrange(3))]
+        tail = [g.random_msg(True) for _ in range(rng.randrange(1, 4))]
+        if rng.random() < 0.3:
+            tail.insert(rng.randrange(len(tail) + 1), g.noise())
+        add_stream(pre + blocks + tail, False, ["slow"] + (["slowx"] if j % 3 == 0 else []) + (["slow"] if j % 4 == 0 else []))
+    # ---- CONCURRENCY: handshakes of 2..3 connections (distinct info hashes / ids / reserved bits) in flight at once, interleaved
+    # as enumerated by TLC (MC_WireConc): "b" = btconn.Accept has reached its Write, which the blocking transport keeps pending,
+    # "f" = the transport takes the bytes
+    scheds = list(scheds)
+    if ctx.quick() and len(scheds) > 48:                          # quick: every 2-connection schedule + a seeded half of the rest
+        two = [x for x in scheds if x["n"] == 2]
+        three = [x for x in scheds if x["n"] != 2]
+        rng.shuffle(three)
+        scheds = two + three[:42]
+    for sc in scheds * ctx.pick(1, 4):
+        conns = []
+        same_id = rng.random() < 0.4                               # one client: the same reserved bits and peer id on every connection
+        rsv, pid = list(rbytes(rng, 8)), list(rbytes(rng, 20))
+        for _ in range(sc["n"]):
+            h = hs(rng.choice([[0] * 8, [0, 0, 0, 0, 0, 0x10, 0, 0x05], list(rbytes(rng, 8))]), rbytes(rng, 20), rbytes(rng, 20))
+            genmsgs.append(dict(h))
+            t = dict(h)
+            t["gi"] = len(genmsgs)
+            conns.append({"case": "r", "hs": True, "chunk": rng.choice(["one", "whole", "rand", "prefix"]), "cseed": rng.randrange(1 << 40),
+                          "msgs": [t], "our_rsv": rsv if same_id else list(rbytes(rng, 8)), "our_pid": pid if same_id else list(rbytes(rng, 20))})
+        rcases.append({"case": "chs", "conns": conns, "sched": sc["sched"]})
     # dialing side of the handshake over loopback TCP
     for _ in range(ctx.pick(8, 40)):
         h = hs(rng.choice([[0] * 8, [0, 0, 0, 0, 0, 0x10, 0, 0x05], list(rbytes(rng, 8))]), rbytes(rng, 20), rbytes(rng, 20))
@@ -373,8 +408,21 @@ def account(ctx, blocks):
             elif e["op"] == "End":
                 ctx.oblig("C11.upcount")
             elif e["op"] == "Read":
-                ctx.count_case(("r", e["chunk"], tuple(msg_key(m) for m in e["exp"])), True)
+                ctx.count_case(("r", e["chunk"], tuple(msg_key(m) for m in e["exp"]), tuple(t["pos"] for t in e.get("touts", []))), True)
                 ctx.oblig("C11.roundtrip", max(1, len(e["exp"])))
+                tol = [t for t in e.get("touts", []) if t["body"] and t["since"] > 0]
+                if tol:
+                    ctx.extra["reads_with_tolerated_timeouts"] = ctx.extra.get("reads_with_tolerated_timeouts", 0) + 1
+                    ctx.extra["tolerated_timeouts"] = ctx.extra.get("tolerated_timeouts", 0) + len(tol)
+                    per = {}
+                    for t in tol:
+                        per[t["mi"]] = per.get(t["mi"], 0) + 1
+                    if max(per.values()) >= 2:
+                        ctx.extra["blocks_with_2plus_timeouts"] = ctx.extra.get("blocks_with_2plus_timeouts", 0) + sum(1 for v in per.values() if v >= 2)
+                if len(e.get("touts", [])) > len(tol):
+                    ctx.extra["reads_with_closing_timeout"] = ctx.extra.get("reads_with_closing_timeout", 0) + 1
+                if e["chunk"].startswith("chs-"):
+                    ctx.extra["concurrent_handshakes"] = ctx.extra.get("concurrent_handshakes", 0) + 1
 
 
 def judge(ctx, tp, cases=None, max_violations=6):
@@ -413,10 +461,14 @@ def judge(ctx, tp, cases=None, max_violations=6):
         e = json.loads(line)
         if e.get("op") == "Send":
             sig = "tag=%s op=Send k=%s plen=%s n=%s" % (tag, e["m"]["k"], e["m"].get("plen", 0), e["w"]["n"])
+            if "sched" in e:                                     # concurrent handshakes: the interleaving and the connection
+                sig += " sched=%s conn=%s" % (e["sched"], e.get("conn"))
         elif e.get("op") == "Read":
             got = [x["k"] for x in e["got"]]
             exp = [x["k"] for x in e["exp"]]
             sig = "tag=%s op=Read chunk=%s exp=%s got=%s err=%s" % (tag, e["chunk"], ",".join(exp), ",".join(got), e.get("err", ""))
+            if e.get("touts"):
+                sig += " timeouts=%s" % ",".join("%d:%s%d" % (t["mi"], "body+" if t["body"] else "x", t["since"]) for t in e["touts"])
         else:
             sig = "tag=%s op=%s frames=%s sent=%s leftover=%s upl=%s wirepl=%s" % (tag, e.get("op"), e.get("frames"), e.get("sent"),
                                                                                   e.get("leftover"), e.get("upl"), e.get("wirepl"))
@@ -454,6 +506,23 @@ def binding_selftest(ctx, tp):
                 m["index"][1] ^= 1
                 break
         tests.append(("C11.roundtrip", [e]))
+    # time: declare a tolerated expiry of a recorded slow-peer run as one the reader must not survive -> the full delivery is wrong
+    slow = next((b for b in blocks if '"op":"Read"' in b[0] and '"chunk":"slow"' in b[0] and '"body":1' in b[0]), None)
+    if slow:
+        e = json.loads(slow[0])
+        t = next((t for t in e["touts"] if t["body"] == 1 and t["since"] > 0 and e["ends"][-1] > t["pos"]), None)
+        if t and len(e["got"]) == len([m for m in e["exp"] if m["k"] not in ("keepalive", "unknown")]):
+            t["since"] = 0
+            tests.append(("C11.roundtrip", [e]))
+    # concurrency: a handshake frame that carries one byte of another connection
+    chs = next((b for b in blocks if any('"sched"' in x for x in b)), None)
+    if chs:
+        evs = [json.loads(x) for x in chs]
+        for e in evs:
+            if e["op"] == "Send":
+                e["w"]["head"][30] ^= 1
+                break
+        tests.append(("C11.handshake", evs))
     ok = 0
     for tag, evs in tests:
         p = ctx.path("selftest.ndjson")
@@ -485,6 +554,17 @@ def run(ctx):
     if not os.environ.get("VERIF_C11_NOMC") and not replay:                     # development switch (mutation runs): skip the design-level part
         # LEVEL 2 (thorough) is a superset of LEVEL 1 (quick)
         ctx.tlc_mc("MC_Wire", ctx.pick("MC_Wire.cfg", "MC_Wire_big.cfg"), timeout=ctx.pick(1500, 3000))
+    # several connections at once: every interleaving of Build/Flush keeps every handshake exact; the interleavings are printed
+    scheds = []
+    if not replay:
+        _, cout = ctx.tlc_mc("MC_WireConc", "MC_WireConc.cfg", timeout=900, workers=1)
+        for line in cout.splitlines():
+            line = line.strip()
+            if line.startswith('"@@'):
+                scheds.append(json.loads(json.loads(line)[2:]))
+        if len(scheds) < 90:
+            raise vlib.MachineryError("MC_WireConc printed only %d interleavings" % len(scheds))
+        ctx.extra["handshake_interleavings_generated_by_tlc"] = len(scheds)
     # 2. generation + TLC-printed encodings
     drv = ctx.build_go("c11")
     ka = None
@@ -504,7 +584,7 @@ def run(ctx):
     if getattr(ctx, "replay", None):                             # re-run the real code on the recorded case only
         case = json.load(open(ctx.replay))["detail"]["case"]
         wcases, rcases, genmsgs = [], [case], []
-        for m in case["msgs"]:
+        for m in case.get("msgs", []) + [m for cc in case.get("conns", []) for m in cc["msgs"]]:
             if "gi" in m:
                 gm = {k: v for k, v in m.items() if k not in ("gi", "variant")}
                 gm.update({"psha": "", "pfirst": [], "plast": []})
@@ -512,7 +592,7 @@ def run(ctx):
                 m["gi"] = len(genmsgs)
         genmsgs = genmsgs or [{"k": "choke"}]
     else:
-        wcases, rcases, genmsgs = build_cases(ctx)
+        wcases, rcases, genmsgs = build_cases(ctx, scheds)
     heads = tlc_encode(ctx, genmsgs)
     # 3. real code
     per = ctx.pick(1000, 2500)
